@@ -154,3 +154,12 @@ CHECKS["C16"] = _c(
     "Trusted: substring search; secrets are fresh 37-40 character high-entropy strings so accidental matches are impossible. Zeroisation in memory is out of scope.",
     "DESIGN.md 3/C16",
 )
+
+CHECKS["C17"] = _c(
+    "exploration",
+    "runtime monitoring: s3s-fs behind S3Service::call in a scratch directory; recursive directory snapshots (path, type, size, SHA-256, mtime) of the whole scratch tree before and after every operation, changed paths classified by zone; response searched for content markers of other buckets and of a sentinel tree outside the root",
+    "harness (store driver)",
+    "Over a store with three populated buckets, live multipart bookkeeping and a sentinel tree next to the root, every object-level operation (incl. CopyObject with hostile destination and hostile source, DeleteObjects, ListObjectsV2 prefix) is issued with ~55 traversal-rich keys and every multipart operation with hostile upload ids and keys; any created / deleted / modified / touched path outside the addressed bucket and its own bookkeeping files, and any response carrying another bucket's, a bookkeeping file's or the sentinel's content, is a violation. Held on the operations observed.",
+    "Trusted: the snapshot walker (std::fs). Reads are observable only through responses (the strace-based syscall monitor sketched in DESIGN.md is not part of this revision). Hostile bucket names never reach the backend (adapter validation, C12).",
+    "DESIGN.md 3/C17",
+)
